@@ -67,6 +67,8 @@ def main():
         if not os.path.exists(os.path.join(ROOT, "checks", pid + ".py")):
             continue
         level, ref, tech, text = CHECKS[pid]
+        if pid <= "C14":
+            tech += "; workloads: seeded random, directed, small-scope exhaustive with novelty pruning, novelty-guided mutational (evolve) histories"
         checks.append({
             "property_id": pid,
             "quick_cmd": "./check %s --tier quick" % pid,
@@ -92,14 +94,14 @@ def main():
         },
         "engines": [
             {"name": "ccmon", "path": "/verif/harness", "serves_properties": [p for p in sorted(claimed) if p not in ("C16", "C17", "C18", "C20")],
-             "kind_free_text": "operation interpreter + shadow model + oracles over the real crate; random / directed generators; fault enumeration; replayed under Miri, ASan, valgrind"},
+             "kind_free_text": "operation interpreter + shadow model + oracles over the real crate; random / directed / exhaustive / novelty-guided mutational generators; fault enumeration; replayed under Miri, ASan, valgrind"},
             {"name": "p_containers", "path": "/verif/p_containers", "serves_properties": ["C17"], "kind_free_text": "enumerated container grid with counting probes"},
             {"name": "p_derive", "path": "/verif/p_derive", "serves_properties": ["C18"], "kind_free_text": "generator of derive shapes + run-time hit-count oracle + compile probes"},
             {"name": "p_ptr", "path": "/verif/p_ptr", "serves_properties": ["C16", "C20"], "kind_free_text": "saturation scenarios; layout grid + forwarding-impl comparison"},
             {"name": "driver", "path": "/verif/lib/driver.py", "serves_properties": sorted(claimed), "kind_free_text": "builds from /repo, runs shards with watchdogs, merges reports, matches known findings, writes evidence"},
         ],
         "checks": checks,
-        "notes": "Technique family: runtime monitoring and sanitizers. Five genuine defects were found by these checks and repaired with 'fix:' commits in /repo (see known_findings.json, all status=fixed; DESIGN.md section 7 and 9).",
+        "notes": "Technique family: runtime monitoring and sanitizers. Six genuine defects were found by these checks and repaired with 'fix:' commits in /repo (see known_findings.json, all status=fixed; DESIGN.md section 7 and 9).",
         "not_applicable": na,
     }
     with open(os.path.join(ROOT, "MANIFEST.json"), "w") as f:
